@@ -122,8 +122,27 @@ let run_run (args : (string * string) list) : string =
     Buffer.contents res
   end
 
-(* "llpbig": large inputs (around the minimum task length of the parallel loops) whose
-   verdict was computed by the harness itself with linear scans - an unproved probe that is
-   only passed through *)
+(* "llpbig": large inputs (around the minimum task length of the parallel loops), far too
+   large for check_perm / check_inverse / check_monotone (quadratic).  The verdict "big" is
+   computed by the extracted n log n checkers big_check_inverse / big_check_ranks, proved to
+   decide the same specifications (C17_big_inverse_spec, C17_big_ranks_spec).  "bigagree"
+   compares it with the verdict the harness computed by linear scans (hverdict): a cheap
+   cross check of both. *)
 let run_big (args : (string * string) list) : string =
-  " big=" ^ (get args "verdict")
+  let status = get args "status" in
+  let hv = get args "hverdict" in
+  let n = get_int args "n" in
+  let mine =
+    if status <> "ok" then "FAIL(" ^ short status ^ ")" else
+    match get args "kind" with
+    | "invert" ->
+      let p = nl (get args "perm") and q = nl (get args "inv") in
+      if List.length p <> n then "FAIL(case-length)"
+      else if BigCheckM.big_check_inverse p q then "ok" else "FAIL(big_check_inverse)"
+    | "ranks" ->
+      let labels = nl (get args "labels") and ranks = nl (get args "ranks") in
+      if List.length labels <> n then "FAIL(case-length)"
+      else if BigCheckM.big_check_ranks labels ranks then "ok" else "FAIL(big_check_ranks)"
+    | k -> "FAIL(unknown-kind:" ^ k ^ ")" in
+  " big=" ^ mine ^ " bigagree=" ^
+  (if (mine = "ok") = (hv = "ok") then "ok" else "FAIL(driver:" ^ mine ^ ";harness:" ^ short hv ^ ")")
